@@ -1,4 +1,6 @@
 mod c08;
+mod canon;
+mod wrap;
 mod common;
 mod o_text;
 mod tab;
